@@ -107,6 +107,9 @@ func sxReq(s Sx) *Req {
 	for _, h := range sxList(sxNth(s, 2)) {
 		q.Headers = append(q.Headers, [2]string{sxStr(sxNth(h, 0)), sxStr(sxNth(h, 1))})
 	}
+	if l := sxList(s); len(l) > 4 {
+		q.EncSlash = sxInt(l[4])
+	}
 	if q.CLen > 0 {
 		q.Body = make([]byte, q.CLen)
 		for i := range q.Body {
